@@ -13,7 +13,7 @@ fn argv_of(v: &Value) -> Vec<OsString> {
 fn err_obs(e: &clap::Error) -> Value {
     json!({"outcome": "Err", "kind": format!("{:?}", e.kind()), "stderr": e.use_stderr(), "exit": e.exit_code(), "chain": []})
 }
-fn empty_value() -> Value { json!({"top": [], "cmd": [], "sub": []}) }
+fn empty_value() -> Value { json!({"top": [], "cmd": [], "sub": [], "cmd2": [], "sub2": []}) }
 
 /// one parse through the derived type and through its command: the trace line
 fn parse_line(ty: &str, di: u64, argv: &Value) -> Value {
